@@ -263,6 +263,18 @@ def oracleStep (o : OState S) (σ : State S) (c : Cmd S) (out : Out S) (σ' : St
     -- a parameter that held a gradient is replaced by a fresh array; its node's gradient is taken
     let o' := hs.foldl (fun (o : OState S) h => o.set h.node none) o
     (o', exp.map (fun ps => .params ps))
+  | .gdstep g vs => match lookup σ.models ("#gd:" ++ g) with
+    | some mr =>
+      let hs := vs.filterMap H
+      let exp := sgdSpec mr.lr o σ hs
+      let o' := hs.foldl (fun (o : OState S) h => o.set h.node none) o
+      (o', exp.map (fun ps => .params ps))
+    | none => (o, none)
+  | .cost _ c output target => match T output, T target with
+    | some ot, some tt => (match specCost c ot tt with
+        | some t => (o, expectT t (tr2 output target))
+        | none => (o, some (.panic .incompatible)))
+    | _, _ => (o, none)
   | .update m => match lookup σ.models m with
     | some mr =>
       let hs := modelParams σ mr.layers
